@@ -22,7 +22,9 @@ def _job(args):
 
 def run(tier, seed, res, lean):
     base = [6, 12, 24] if tier == 'quick' else [6, 12, 24, 48]
-    jobs = [(f, base if f != 'diamond-ram' else [4, 8, 16]) for f in suite_cost.FAMILIES]
+    # families with a MemoryCache behind the diamond layers (CacheToRam; the RAM level of CacheColumns) are measured on smaller sizes: their
+    # TIME doubles with every layer on the unchanged tree (finding F4b, call site MemoryCache.get/set); the step counts are still checked
+    jobs = [(f, base if f not in ('diamond-ram', 'diamond-columns') else [4, 8, 16]) for f in suite_cost.FAMILIES]
     outs = pmap(_job, jobs)
     triples = 0
     table = {}
@@ -31,7 +33,7 @@ def run(tier, seed, res, lean):
         triples += sum(len(v) for v in out.values())
         for p in suite_cost.growth_problems(name, out):
             res.violations.append(Violation('c20-growth', p['msg'][:300], {'suite': 'S-COST', 'signature': {'family': name}, **p}))
-        if cpu > 20 and name != 'diamond-ram':
+        if cpu > 20 and name not in ('diamond-ram', 'diamond-columns'):
             res.violations.append(Violation('c20-time', f'{name}: {cpu:.1f} s of CPU time for sizes {sorted(out)} although the call counts are small',
                                             {'suite': 'S-COST', 'signature': {'family': name}, 'table': out}))
     res.coverage.update({
